@@ -28,6 +28,7 @@ from lbry.error import InvalidBlobHashError, InvalidDataError
 import vlib
 
 MAX_BLOB = 2 * 2 ** 20
+MAX_RESP = 16 * 1024
 RESP_KEYS = {'lbrycrd_address', 'available_blobs', 'blob_data_payment_rate', 'incoming_blob'}
 HEXMATCH = re.compile("^[a-f,0-9]+$")
 ADDRESS = 'bQEaw42GXsgCAGio1nxFncJSyRmnztSCjP'
@@ -428,7 +429,10 @@ class ClientSession:
         writer = getattr(blob, 'spy_writer', None)
         sent_request = b''.join(tr.written)
         tr.written = []
+        jb0, rx = JSON_WORK.bytes, 0
         for ev in events:
+            if ev[0] in ('data', 'late'):
+                rx += len(ev[1]) // 2
             k = ev[0]
             if k == 'data':
                 tr.deliver(bytes.fromhex(ev[1]))
@@ -471,7 +475,8 @@ class ClientSession:
             'now': int(loop.vt),
         }
         extra = {'verified_flag': verified, 'on_disk': on_disk, 'elapsed': loop.vt - t0, 'request': sent_request,
-                 'task': task, 'transport_closed': tr.closing, 'raised': list(tr.raised)}
+                 'task': task, 'transport_closed': tr.closing, 'raised': list(tr.raised),
+                 'json_bytes': JSON_WORK.bytes - jb0, 'rx': rx}
         if phase == 'pending':
             task.cancel()
             loop.drain()
@@ -524,6 +529,9 @@ def monitor_client(req, obs, extra, T):
             return 'request on the wire does not name the blob'
     except ValueError:
         return 'request on the wire is not JSON'
+    if extra['json_bytes'] > 256 * (extra['rx'] + 4096):
+        return ('WORK: the client fed %d bytes to json.loads while receiving %d bytes (re-parsing at every "}"): a peer '
+                'can stall the event loop past every timeout' % (extra['json_bytes'], extra['rx']))
     if req.get('honest'):
         if obs['phase'] != ['ok', len(truth)] or not verified or not obs['open']:
             return 'honest transfer did not complete: %r verified=%r open=%r' % (obs['phase'], verified, obs['open'])
@@ -535,7 +543,7 @@ def run_client_case(run, model, case):
     T = case['T']
     Flags.unmodelled = False
     sess = ClientSession(T)
-    impl, bad = [], None
+    impl, bad, sig = [], None, None
     try:
         for i, rq in enumerate(case['requests']):
             obs, extra = sess.request(rq['hash'], rq['known'], rq['events'])
@@ -553,7 +561,7 @@ def run_client_case(run, model, case):
     modelled = case.get('modelled', True)
     run.case(case, nontrivial=True, validated=modelled)
     if bad:
-        run.violation(case, bad, signature={'kind': 'client', 'requests': [
+        run.violation(case, bad, signature=sig or {'kind': 'client', 'requests': [
             {k: r[k] for k in ('hash', 'known', 'events')} for r in case['requests']]})
         return
     if not modelled:
@@ -647,6 +655,7 @@ MISBEHAVIOURS = [
     'json_falsy_error', 'json_deep', 'json_only_address', 'oversized_open', 'oversized_ws', 'silence',
     'not_available', 'price_rejected', 'lost_mid_header', 'lost_after_header', 'late_bytes', 'slow_ok', 'slow_timeout',
     'hash_nonstr', 'avail_other', 'no_avail_key', 'no_price_key', 'second_response', 'len_bool',
+    'cap_hdr_in', 'cap_hdr_out', 'cap_junk_in', 'cap_junk_out', 'brace_flood',
 ]
 
 
@@ -753,7 +762,18 @@ def gen_request(rng, T, mis=None, size=None, blob_kind=None, frag=None, known_mo
         frag = 'random'
     elif mis == 'oversized_ws':
         hdr = hdr[:-1] + b' ' * rng.choice([5000, 70000]) + b'}'
-        honest = True           # whitespace inside JSON is legal: an (odd) honest stream
+        honest = len(hdr) <= MAX_RESP   # whitespace inside JSON is legal: an (odd) honest stream while under the cap
+    elif mis in ('cap_hdr_in', 'cap_hdr_out'):
+        # the final '}' of a legal header at index MAX_RESP-1 (still recognised) / MAX_RESP (never recognised)
+        hdr = hdr[:-1] + b' ' * (MAX_RESP - len(hdr) + (0 if mis == 'cap_hdr_in' else 1)) + b'}'
+        honest = mis == 'cap_hdr_in'
+    elif mis in ('cap_junk_in', 'cap_junk_out'):
+        # unrecognised bytes: exactly MAX_RESP of them are still buffered, one more closes the connection
+        hdr = bytes(rng.choice(b'a{ "') for _ in range(MAX_RESP + (0 if mis == 'cap_junk_in' else 1)))
+        body = b''
+    elif mis == 'brace_flood':
+        hdr = b'}' * rng.choice([300, 2000])
+        body = b''
     elif mis == 'silence':
         hdr, body = b'', b''
     elif mis == 'not_available':
@@ -772,6 +792,8 @@ def gen_request(rng, T, mis=None, size=None, blob_kind=None, frag=None, known_mo
     elif mis == 'second_response':
         body = blob[:n // 2] + hd() + blob[n // 2:]
     stream = hdr + body
+    if len(stream) > 6000 and frag in ('bytes', 'bytes-hdr', 'brace'):
+        frag = 'random'
     chunks = fragment(rng, stream, len(hdr), frag) if stream else []
     events = to_events(rng, chunks, drain_p)
     if mis in ('lost_mid_header', 'lost_after_header'):
@@ -820,3 +842,922 @@ def gen_client_case(rng, T=None, mis=None, pos=None, nreq=None, **kw):
         reqs.append(r)
         modelled = modelled and m
     return {'kind': 'client', 'T': T, 'requests': reqs, 'modelled': modelled}
+
+
+# ================================================================================ server runs (real code)
+
+class ServerWorld:
+    """a real BlobManager holding verified blobs (written through real writers) and real BlobServerProtocol
+    objects, one per fake connection, all on one virtual-clock loop"""
+
+    def __init__(self, blobs, loop=None):
+        self.loop = loop or VLoop()
+        self.own_loop = loop is None
+        asyncio.set_event_loop(self.loop)
+        self.dir = tempfile.mkdtemp(prefix='c10s')
+        conf = Config(data_dir=self.dir, wallet_dir=self.dir, download_dir=self.dir,
+                      config=os.path.join(self.dir, 'settings.yml'))
+        self.bm = BlobManager(self.loop, self.dir, StubStorage(), conf)
+        self.store = {}
+        for b in blobs:
+            h = sha(b)
+            if h in self.store:
+                continue
+            blob = self.bm.get_blob(h, len(b))
+            blob.get_blob_writer().write(b)
+            self.loop.drain()
+            assert blob.get_is_verified() and h in self.bm.completed_blob_hashes
+            self.store[h] = b
+        self.conns = []
+
+    def connect(self, stall_after=None, port=None, drain=True):
+        p = BlobServerProtocol(self.loop, self.bm, ADDRESS, idle_timeout=IDLE_T, transfer_timeout=TRANSFER_T)
+        t = FakeTransport(self.loop, p, peer=('127.0.0.1', port or (5000 + len(self.conns))), stall_after=stall_after)
+        t.server_proto = p
+        self.conns.append(t)
+        if drain:
+            self.loop.drain()
+        return t
+
+    def close(self):
+        self.bm.stop()
+        if self.own_loop:
+            self.loop.shutdown()
+            asyncio.set_event_loop(None)
+        shutil.rmtree(self.dir, ignore_errors=True)
+
+
+def honest_request(h):
+    return json.dumps({'requested_blobs': [h], 'lbrycrd_address': True, 'blob_data_payment_rate': 0.0,
+                       'requested_blob': h}).encode()
+
+
+def decode_server_stream(b):
+    """independent decoder of the server->client wire format: (JSON header [blob bytes])*"""
+    items, pos = [], 0
+    txt = b.decode('latin-1')
+    dec = json.JSONDecoder()
+    while pos < len(b):
+        try:
+            obj, end = dec.raw_decode(txt, pos)
+        except ValueError:
+            items.append({'stray': b[pos:].hex()})
+            break
+        ib = obj.get('incoming_blob') if isinstance(obj, dict) else None
+        av = obj.get('available_blobs') if isinstance(obj, dict) else None
+        items.append({'header': {
+            'incoming': [_hx(ib['blob_hash']), ib['length']] if isinstance(ib, dict) and 'blob_hash' in ib else None,
+            'price': obj.get('blob_data_payment_rate') == 'RATE_ACCEPTED',
+            'avail': sorted(set(_hx(x) for x in av)) if isinstance(av, list) else None,
+            'addr': obj.get('lbrycrd_address') == ADDRESS}, '_raw': obj})
+        pos = end
+        if isinstance(ib, dict) and 'length' in ib:
+            items.append({'blob': b[pos:pos + ib['length']].hex()})
+            pos += ib['length']
+    return items
+
+
+def check_served(store, items, hdr_premises=True):
+    """server half of the property on a decoded stream"""
+    i = 0
+    while i < len(items):
+        it = items[i]
+        if 'stray' in it:
+            return 'bytes on the wire that are neither a header nor announced blob data'
+        if 'blob' in it:
+            return 'blob bytes without a header'
+        inc = it['header']['incoming']
+        if it['_raw'].get('incoming_blob') is not None and inc is None:
+            return 'header with an incoming_blob that names no blob'
+        if inc is not None:
+            h = bytes.fromhex(inc[0]).decode()
+            if h not in store:
+                return 'header announces a blob the server does not hold verified'
+            if inc[1] != len(store[h]):
+                return 'header announces length %r for a blob of %d bytes' % (inc[1], len(store[h]))
+            if i + 1 >= len(items) or 'blob' not in items[i + 1]:
+                return 'announced blob not followed by its bytes'
+            data = bytes.fromhex(items[i + 1]['blob'])
+            if data != store[h] or sha(data) != h:
+                return 'served bytes differ from the verified blob'
+            if hdr_premises:
+                raw = json.dumps(it['_raw']).encode()
+                bad = header_premises(raw)
+                if bad:
+                    return bad
+            i += 1
+        i += 1
+    return None
+
+
+def header_premises(raw):
+    """the hypotheses of C10_fragmentation_irrelevant about an honest header, checked with python json:
+    it ends in '}', parses as a response at its end, and no proper prefix ending in '}' is JSON"""
+    if not raw.endswith(b'}'):
+        return 'honest header does not end in }'
+    if not oracle_json_loads(raw).startswith(b'R|'):
+        return 'honest header is not recognised as a response'
+    for i in range(len(raw) - 1):
+        if raw[i:i + 1] == b'}' and oracle_json_loads(raw[:i + 1]) != b'I':
+            return 'a proper prefix of an honest header parses as JSON'
+    return None
+
+
+def served_ok(world, h):
+    """another connection is still served: honest request for a held blob"""
+    t = world.connect()
+    t.deliver(honest_request(h))
+    world.loop.drain()
+    items = decode_server_stream(b''.join(t.written))
+    ok = (check_served(world.store, items) is None and len(items) == 2
+          and items[0]['header']['incoming'] == [_hx(h), len(world.store[h])])
+    t.peer_close()
+    world.loop.drain()
+    return ok
+
+
+def canon_model_srv(m):
+    outs = []
+    for o in m['outs']:
+        if o in ('close', 'taskerror'):
+            continue
+        if 'header' in o:
+            hd = dict(o['header'])
+            if hd['avail'] is not None:
+                hd['avail'] = sorted(set(hd['avail']))
+            if hd['incoming'] is not None:
+                hd['incoming'] = [hd['incoming'][0], hd['incoming'][1]]
+            outs.append({'header': hd})
+        else:
+            outs.append(o)
+    return {'open': m['open'], 'buf': m['buf'], 'outs': outs}
+
+
+def run_server_case(run, model, case):
+    """case: {'kind':'server','blobs':[hex],'frags':[hex],'tag','expect_closed':bool,'stall':n|None}"""
+    Flags.unmodelled = False
+    blobs = [bytes.fromhex(x) for x in case['blobs']]
+    world = ServerWorld(blobs)
+    bad = None
+    try:
+        t = world.connect(stall_after=case.get('stall'))
+        first = blobs and sha(blobs[0])
+        for f in case['frags']:
+            t.deliver(bytes.fromhex(f))
+            world.loop.drain()
+        stream = b''.join(t.written)
+        items = decode_server_stream(stream)
+        impl = {'open': not t.closing, 'buf': t.server_proto.buf.hex(),
+                'outs': [{k: v for k, v in it.items() if k != '_raw'} for it in items]}
+        if case.get('stall') is None:
+            bad = check_served(world.store, items)
+        if not bad and case.get('expect_closed') and not t.closing:
+            bad = 'connection not closed after %s' % case['tag']
+        if not bad and case.get('expect_served') is not None:
+            got = [it['header']['incoming'][0] for it in items if 'header' in it and it['header']['incoming']]
+            if got != [_hx(h) for h in case['expect_served']]:
+                bad = 'honest request(s) for held blobs not served exactly: %r' % (got,)
+        if not bad and first and not served_ok(world, first):
+            bad = 'server stopped serving other connections'
+        if not bad:
+            # every connection is closed by the idle / transfer timeouts at the latest
+            world.loop.advance(TRANSFER_T if case.get('stall') is not None else IDLE_T)
+            if not t.closing:
+                bad = 'connection still open after the configured timeout'
+            elif first and not served_ok(world, first):
+                bad = 'server stopped serving after a timeout'
+        run.count('server:' + ('closed' if not impl['open'] else 'open'))
+        run.count('srv:' + str(case.get('tag')))
+    finally:
+        world.close()
+    modelled = case.get('modelled', True) and case.get('stall') is None
+    run.case(case, nontrivial=True, validated=modelled)
+    if bad:
+        run.violation(case, bad, signature={'kind': 'server', 'blobs': case['blobs'], 'frags': case['frags']})
+        return
+    if not modelled:
+        run.count('monitor-only')
+        return
+    mod = model.call('server_run', store=[[sha(b), b.hex()] for b in blobs], frags=case['frags'])
+    if Flags.unmodelled:
+        run.count('unmodelled-json-value')
+        return
+    run.compare('C10.server_run', case, impl, canon_model_srv(mod))
+
+
+# ================================================================================ generators: server side
+
+SERVER_TAGS = ['honest', 'honest', 'honest_multi', 'unknown', 'only_avail', 'only_download', 'only_price', 'invalid_hash',
+               'illtyped', 'bad_json', 'nonutf8', 'cap_1199', 'cap_1200', 'cap_1201', 'cap_split', 'no_brace_flood',
+               'glued_two', 'trailing_ws', 'trailing_junk', 'brace_in_string', 'empty_dict', 'json_scalar', 'deep',
+               'silence', 'stall', 'avail_many', 'mapping_list']
+
+
+def pad_request(h, total):
+    base = honest_request(h)
+    return base[:-1] + b' ' * (total - len(base)) + b'}'
+
+
+def gen_server_case(rng, tag=None, frag=None):
+    tag = tag or rng.choice(SERVER_TAGS)
+    nb = rng.choice([1, 2, 3])
+    blobs = [make_blob(rng, rng.choice(BLOB_KINDS), rng.choice([1, 24, 100, 1000, 4096])) for _ in range(nb)]
+    blobs = list({sha(b): b for b in blobs}.values())
+    hs = [sha(b) for b in blobs]
+    h = hs[0]
+    unknown = sha(b'nobody holds this' + rng.randbytes(4))
+    frag = frag or rng.choice(FRAG_MODES)
+    expect_closed, expect_served, stall, modelled = False, None, None, True
+
+    def fr(msg):
+        return fragment(rng, msg, rng.randrange(1, len(msg)) if len(msg) > 1 else 1, frag)
+    if tag == 'honest':
+        chunks = fr(honest_request(h))
+        expect_served = [h]
+    elif tag == 'honest_multi':
+        seq = [rng.choice(hs) for _ in range(rng.choice([2, 3, 4]))]
+        chunks = [c for x in seq for c in fr(honest_request(x))]
+        expect_served = seq
+    elif tag == 'unknown':
+        chunks = fr(honest_request(unknown))
+        expect_served = []
+    elif tag == 'only_avail':
+        chunks = fr(json.dumps({'requested_blobs': rng.choice([[h], [unknown, h], hs + [unknown], [h, h]])}).encode())
+    elif tag == 'avail_many':
+        chunks = fr(json.dumps({'requested_blobs': [rng.choice(hs + [unknown, 'x', h.upper()]) for _ in range(6)],
+                                'requested_blob': rng.choice(hs + [unknown])}).encode())
+    elif tag == 'only_download':
+        chunks = fr(json.dumps({'requested_blob': rng.choice([h, unknown])}).encode())
+    elif tag == 'only_price':
+        chunks = fr(json.dumps({'blob_data_payment_rate': rng.choice([0.0, 'x', None])}).encode())
+    elif tag == 'invalid_hash':
+        chunks = fr(json.dumps({'requested_blob': rng.choice(['zz', h[:-1], h + 'a', h.upper(), '', h[:-1] + '\n', ',' * 96, '../' * 32]),
+                                'requested_blobs': [h]}).encode())
+    elif tag == 'illtyped':
+        v = rng.choice([{'requested_blobs': 5}, {'requested_blobs': []}, {'requested_blobs': None}, {'requested_blob': 5},
+                        {'requested_blob': None}, {'requested_blob': [h]}, {'requested_blobs': 'abc'},
+                        {'requested_blobs': {h: 1}}, {'requested_blobs': [5, None, h]}, {'requested_blobs': [[h]]},
+                        {'requested_blob': {'a': 1}}, {'requested_blobs': [h], 'requested_blob': True}])
+        chunks = fr(json.dumps(v).encode())
+    elif tag == 'mapping_list':
+        chunks = fr(rng.choice([b'["requested_blob", "}"]', b'"requested_blob}"', b'[1, 2, "}"]', b'"}"', b'["}"]',
+                                b'["requested_blobs", {}]', b'[{}]']))
+        expect_closed = True
+    elif tag == 'bad_json':
+        m = honest_request(h)
+        p = rng.randrange(1, len(m) - 1)
+        chunks = fr(rng.choice([m[:p] + b'}' + m[p:], m.replace(b':', b';', 1), b'}', b'{]}', m + b'}', b'{"requested_blob": }',
+                                m[:-1] + b',}', b'\x00}', b'{"requested_blob": "' + h.encode() + b'"}x}']))
+        expect_closed = True
+    elif tag == 'nonutf8':
+        chunks = fr(rng.choice([b'{"requested_blob": "\xff"}', b'\xff\xfe}', b'{"\x80": 1}']))
+        expect_closed = True
+    elif tag in ('cap_1199', 'cap_1200', 'cap_1201'):
+        total = int(tag[4:])
+        chunks = [pad_request(h, total)] if rng.random() < 0.5 else fr(pad_request(h, total))
+        if total >= 1200:
+            expect_closed = True
+        else:
+            expect_served = [h]
+    elif tag == 'cap_split':
+        total = rng.choice([1199, 1200])
+        m = pad_request(h, total)
+        k = rng.randrange(1, total - 1)
+        chunks = [m[:k], m[k:]]
+        if total >= 1200:
+            expect_closed = True
+        else:
+            expect_served = [h]
+    elif tag == 'no_brace_flood':
+        chunks = [rng.choice([b'a', b'{', b' ']) * rng.choice([1, 100, 400, 599]) for _ in range(rng.choice([3, 12, 13, 30]))]
+        expect_closed = sum(len(c) for c in chunks) >= 1200
+    elif tag == 'glued_two':
+        chunks = fr(honest_request(h) + honest_request(hs[-1]))
+        expect_closed = frag == 'one'
+    elif tag == 'trailing_ws':
+        chunks = fr(honest_request(h) + rng.choice([b' ', b'\n', b'  \r\n']))
+        if frag == 'one':
+            expect_served = [h]
+    elif tag == 'trailing_junk':
+        chunks = [honest_request(h) + rng.choice([b'x', b'{', b']'])]
+        expect_closed = True
+    elif tag == 'brace_in_string':
+        chunks = fr(json.dumps({'requested_blob': h, 'lbrycrd_address': rng.choice(['}', 'a}b', '}{', '"}'])}).encode())
+    elif tag == 'empty_dict':
+        chunks = fr(rng.choice([b'{}', b'{"a": 1}', b' {} ', b'{"requested": "x"}']))
+        expect_closed = True
+    elif tag == 'json_scalar':
+        chunks = fr(rng.choice([b'5}', b'null}', b'true }']))
+        expect_closed = True
+    elif tag == 'deep':
+        chunks = [b'[' * 1100 + b'}']
+        expect_closed = True
+    elif tag == 'silence':
+        chunks = []
+    else:   # stall: the peer asks and then never reads
+        chunks = [honest_request(h)]
+        big = rng.randbytes(40000)
+        blobs = [big] + blobs
+        chunks = [honest_request(sha(big))]
+        stall = rng.choice([300, 17000])
+    return {'kind': 'server', 'blobs': [b.hex() for b in blobs], 'frags': [c.hex() for c in chunks], 'tag': tag,
+            'frag': frag, 'expect_closed': expect_closed, 'expect_served': expect_served, 'stall': stall,
+            'modelled': modelled}
+
+
+# ================================================================================ end to end: real server <-> real client through a re-chunking pipe
+
+class Pipe:
+    """both directions of one fake TCP connection; the byte stream of each direction is cut by a plan"""
+
+    def __init__(self, loop, rng, mode_c2s, mode_s2c):
+        self.loop, self.rng = loop, rng
+        self.buf = {'c2s': bytearray(), 's2c': bytearray()}
+        self.mode = {'c2s': mode_c2s, 's2c': mode_s2c}
+        self.at_start = {'c2s': True, 's2c': True}
+        self.delivered = {'c2s': [], 's2c': []}
+        self.ct = self.st = None
+
+    def next_size(self, d):
+        m, avail = self.mode[d], len(self.buf[d])
+        if m == 'bytes':
+            return 1
+        if m == 'all':
+            return avail
+        if m == 'small':
+            return self.rng.randrange(1, 9)
+        if m == 'rand':
+            return self.rng.randrange(1, 3000)
+        if m == 'big':
+            return self.rng.randrange(1, 1 << 17)
+        if m in ('split', 'plus1', 'minus1', 'bytes-hdr'):
+            # cut relative to the end of the JSON message at the head of the buffer (when there is one)
+            if self.at_start[d]:
+                try:
+                    _, end = json.JSONDecoder().raw_decode(bytes(self.buf[d]).decode('latin-1'))
+                except ValueError:
+                    return avail
+                self.at_start[d] = False
+                if m == 'bytes-hdr':
+                    self.bytes_left = end
+                    return 1
+                return max(1, end + {'split': 0, 'plus1': 1, 'minus1': -1}[m])
+            if m == 'bytes-hdr' and getattr(self, 'bytes_left', 0) > 1:
+                self.bytes_left -= 1
+                return 1
+            return avail
+        return avail
+
+    def pump(self, limit=10 ** 7):
+        n = 0
+        while n < limit:
+            progressed = False
+            for d, tr in (('c2s', self.st), ('s2c', self.ct)):
+                if self.buf[d] and not tr.paused:
+                    k = min(max(self.next_size(d), 1), len(self.buf[d]))
+                    chunk = bytes(self.buf[d][:k])
+                    del self.buf[d][:k]
+                    if tr.deliver(chunk) != 'dropped':
+                        self.delivered[d].append(chunk)
+                    self.loop.drain(8)
+                    progressed = True
+                    n += 1
+            if not progressed:
+                self.loop.drain()
+                if not any(self.buf.values()) or all(t.closing for t in (self.st, self.ct)):
+                    break
+                if not any(self.buf[d] and not tr.paused for d, tr in (('c2s', self.st), ('s2c', self.ct))):
+                    break
+
+    def new_message(self):
+        self.at_start = {'c2s': True, 's2c': True}
+
+
+def run_e2e_case(run, model, case):
+    """case: {'kind':'e2e','seed','sizes':[..],'kinds':[..],'modes':[c2s,s2c],'unknown':[bool..],'modelled'}"""
+    Flags.unmodelled = False
+    rng = random.Random(case['seed'])
+    blobs = [make_blob(rng, k, s) for k, s in zip(case['kinds'], case['sizes'])]
+    T = 5
+    loop = VLoop()
+    world = ServerWorld(blobs, loop=loop)
+    cdir = tempfile.mkdtemp(prefix='c10e')
+    pipe = Pipe(loop, rng, *case['modes'])
+    bad = None
+
+    def connect(p, host, port):
+        pipe.ct = FakeTransport(loop, p)
+        pipe.st = world.connect(drain=False)
+        pipe.ct.on_write = lambda d: pipe.buf['c2s'].extend(d)
+        pipe.st.on_write = lambda d: pipe.buf['s2c'].extend(d)
+        return pipe.ct
+    loop.fake_connect = connect
+    proto, impl_c, reqs = None, [], []
+    try:
+        for i, b in enumerate(blobs):
+            h = sha(b)
+            want = h if not case['unknown'][i] else sha(b + b'?')
+            d = os.path.join(cdir, 'r%d' % i)
+            os.mkdir(d)
+            blob = SpyBlobFile(loop, want, rng.choice([None, len(b)]) if not case['unknown'][i] else None, None, d)
+            known = blob.length
+            pipe.new_message()
+            n0 = len(pipe.delivered['s2c'])
+            task = loop.create_task(request_blob(loop, blob, '127.0.0.1', 4444, 3, T, connected_protocol=proto))
+            loop.drain()
+            pipe.pump()
+            loop.drain()
+            if not task.done():
+                loop.advance(2 * T + 1)
+            res = task.result() if task.done() and not task.cancelled() and not task.exception() else None
+            proto = res[1] if res else None
+            path = os.path.join(d, want)
+            on_disk = open(path, 'rb').read() if os.path.isfile(path) else None
+            if not case['unknown'][i]:
+                if not (res and res[0] == len(b) and res[1] is not None and blob.get_is_verified() and on_disk == b):
+                    bad = 'honest transfer of blob %d (%d bytes) did not complete: result %r verified %r' % (
+                        i, len(b), res and (res[0], res[1] is not None), blob.get_is_verified())
+            else:
+                if blob.get_is_verified() or on_disk is not None or (res and res[1] is not None):
+                    bad = 'request for a blob the server does not hold: verified/left on disk/connection kept'
+            chunks = pipe.delivered['s2c'][n0:]
+            reqs.append({'hash': want, 'known': known,
+                         'events': [e for c in chunks for e in (['data', c.hex()], ['drain'])] + [['adv', 2 * T + 1]] * (0 if (res and res[1]) else 1)})
+            impl_c.append({'phase': (['ok' if res[1] is not None else 'closed', res[0]] if res else 'other'),
+                           'verified': on_disk.hex() if (blob.get_is_verified() and on_disk is not None) else None,
+                           'wdata': b''.join(getattr(blob, 'spy', [])).hex()})
+            blob.close()
+            if bad:
+                break
+        if not bad:
+            for st in world.conns:
+                bad = bad or check_served(world.store, decode_server_stream(b''.join(st.written)))
+        srv_frags = [c.hex() for c in pipe.delivered['c2s']]
+        nconn = len(world.conns)
+        srv_items = decode_server_stream(b''.join(world.conns[0].written)) if world.conns else []
+    finally:
+        world.close()
+        loop.shutdown()
+        asyncio.set_event_loop(None)
+        shutil.rmtree(cdir, ignore_errors=True)
+    run.count('e2e:%s/%s' % tuple(case['modes']))
+    run.count('e2e-size:%s' % ('2MiB' if max(case['sizes']) > 10 ** 6 else '<=4K' if max(case['sizes']) <= 4096 else 'mid'))
+    modelled = case.get('modelled', True) and max(case['sizes']) <= 4096
+    run.case(case, nontrivial=True, validated=modelled)
+    if bad:
+        run.violation(case, bad, signature={'kind': 'e2e', 'seed': case['seed'], 'sizes': case['sizes'], 'modes': case['modes']})
+        return
+    if not modelled:
+        run.count('monitor-only')
+        return
+    mod = model.call('session', T=T, requests=reqs)
+    mod_c = [None if o is None else {'phase': canon_model_obs(o)['phase'], 'verified': o['verified'], 'wdata': o['wdata']} for o in mod]
+    run.compare('C10.e2e_client', case, impl_c, mod_c)
+    if nconn == 1:
+        mods = model.call('server_run', store=[[sha(b), b.hex()] for b in blobs], frags=srv_frags)
+        impl_s = [{k: v for k, v in it.items() if k != '_raw'} for it in srv_items]
+        run.compare('C10.e2e_server', case, impl_s, canon_model_srv(mods)['outs'])
+
+
+E2E_MODES = ['bytes', 'all', 'small', 'rand', 'split', 'plus1', 'minus1', 'bytes-hdr']
+
+
+def gen_e2e_case(rng, big=False):
+    n = rng.choice([1, 2, 3])
+    if big:
+        sizes = [rng.choice([MAX_BLOB, MAX_BLOB - 1, MAX_BLOB // 2 + 7])] + [rng.choice([1, 4096]) for _ in range(n - 1)]
+        modes = [rng.choice(E2E_MODES), rng.choice(['all', 'big', 'split', 'plus1', 'minus1', 'bytes-hdr'])]
+    else:
+        sizes = [rng.choice([1, 2, 24, 25, 100, 1000, 4095, 4096]) for _ in range(n)]
+        modes = [rng.choice(E2E_MODES), rng.choice(E2E_MODES)]
+    kinds = [rng.choice(BLOB_KINDS) for _ in range(n)]
+    unknown = [rng.random() < 0.15 for _ in range(n)]
+    if big:
+        unknown[0] = False
+    return {'kind': 'e2e', 'seed': rng.randrange(1 << 30), 'sizes': sizes, 'kinds': kinds, 'modes': modes,
+            'unknown': unknown, 'modelled': not big}
+
+
+# ================================================================================ _parse_blob_response / deserialize micro-correspondence
+
+def run_parse_case(run, model, case):
+    Flags.unmodelled = False
+    msg = bytes.fromhex(case['msg'])
+    try:
+        r = BlobResponse.deserialize(msg)
+        if not r.responses:
+            impl = 'none' if r.blob_data == msg else 'none-but-consumed'
+        else:
+            impl = {'resp': digest_real(r), 'consumed': len(msg) - len(r.blob_data)}
+            if msg[len(msg) - len(r.blob_data):] != r.blob_data:
+                impl = 'blob_data is not a suffix'
+    except BaseException as e:  # noqa
+        impl = 'raise'
+    run.case(case, nontrivial=True)
+    run.count('parse:' + (impl if isinstance(impl, str) else 'resp'))
+    # monitor: a recognised response never swallows bytes past the JSON object it was read from
+    if isinstance(impl, dict):
+        try:
+            json.loads(msg[:impl['consumed']])
+        except ValueError:
+            run.violation(case, 'response recognised in a prefix that is not JSON', signature={'kind': 'parse', 'msg': case['msg']})
+            return
+    mod = model.call('parse_prefix', msg=case['msg'])
+    if Flags.unmodelled:
+        run.count('unmodelled-json-value')
+        return
+    run.compare('C10.parse_prefix', case, impl, mod)
+
+
+def gen_parse_case(rng):
+    b = make_blob(rng, rng.choice(BLOB_KINDS), rng.choice([1, 30, 200]))
+    h = sha(b)
+    hdr = honest_header(h, len(b))
+    c = rng.random()
+    if c < 0.25:
+        msg = hdr + b
+    elif c < 0.4:
+        msg = hdr[:rng.randrange(len(hdr) + 1)]
+    elif c < 0.55:
+        p = rng.randrange(len(hdr))
+        msg = hdr[:p] + bytes([rng.choice(b'{}[]":, x\\\x00\xff')]) + hdr[p + rng.choice([0, 1]):] + b
+    elif c < 0.7:
+        msg = b
+    elif c < 0.85:
+        v = rng.choice([{'available_blobs': rng.choice([[], [h], [h, h], 'x', None, 0, [5]])},
+                        {'blob_data_payment_rate': rng.choice(['RATE_ACCEPTED', 'RATE_TOO_LOW', 'RATE_UNSET', 'x', 1, None, []])},
+                        {'incoming_blob': rng.choice([{'error': 'e'}, {'error': ''}, {'blob_hash': h}, {'blob_hash': 5, 'length': 'x'},
+                                                      {'blob_hash': h, 'length': -1}, 'error', [], 5, None, {'blob_hash': h, 'length': None}])},
+                        {'lbrycrd_address': 'x'}, {'lbrycrd_address': 'x', 'other': 1}, {}, [1], {'error': 'x'}])
+        msg = rng.choice([b'', b' ', b'\n']) + json.dumps(v).encode() + rng.choice([b'', b, b'}', hdr])
+    else:
+        msg = bytes(rng.choice(b'{}[]":, 01ae\\') for _ in range(rng.randrange(0, 40)))
+    return {'kind': 'parse', 'msg': msg.hex()}
+
+
+# ================================================================================ thorough tier: real loopback TCP with the real BlobServer
+
+def free_port():
+    s = socket.socket()
+    s.bind(('127.0.0.1', 0))
+    p = s.getsockname()[1]
+    s.close()
+    return p
+
+
+async def _tcp_proxy(loop, target_port, rng, mode):
+    """forwards both directions in chosen segment sizes (TCP_NODELAY + a tick between writes)"""
+    async def handle(reader, writer):
+        r2, w2 = await asyncio.open_connection('127.0.0.1', target_port)
+        for w in (writer, w2):
+            w.get_extra_info('socket').setsockopt(socket.IPPROTO_TCP, socket.TCP_NODELAY, 1)
+
+        async def fwd(r, w, m):
+            try:
+                first = True
+                while True:
+                    data = await r.read(1 << 16)
+                    if not data:
+                        break
+                    pos = 0
+                    while pos < len(data):
+                        if m == 'bytes' and (first or pos < 400):
+                            k = 1
+                        elif m == 'small':
+                            k = rng.randrange(1, 64)
+                        elif m == 'rand':
+                            k = rng.randrange(1, 5000)
+                        else:
+                            k = len(data)
+                        w.write(data[pos:pos + k])
+                        await w.drain()
+                        if k < 5000:
+                            await asyncio.sleep(0)
+                        pos += k
+                    first = False
+            except (ConnectionError, OSError):
+                pass
+            finally:
+                try:
+                    w.close()
+                except Exception:
+                    pass
+        await asyncio.gather(fwd(reader, w2, mode[0]), fwd(r2, writer, mode[1]))
+    port = free_port()
+    srv = await asyncio.start_server(handle, '127.0.0.1', port)
+    return srv, port
+
+
+async def _tcp_liar(script, port_box):
+    async def handle(reader, writer):
+        try:
+            await reader.read(4096)
+            for part in script:
+                if part == 'close':
+                    break
+                writer.write(part)
+                await writer.drain()
+                await asyncio.sleep(0.01)
+            if script and script[-1] == 'close':
+                writer.close()
+            else:
+                await asyncio.sleep(5)
+                writer.close()
+        except (ConnectionError, OSError):
+            pass
+    srv = await asyncio.start_server(handle, '127.0.0.1', 0)
+    port_box.append(srv.sockets[0].getsockname()[1])
+    return srv
+
+
+def run_tcp_case(run, case):
+    """monitor only (kernel segmentation is not the model's): honest transfers through the real BlobServer over
+    loopback TCP (optionally through a re-segmenting proxy), lying raw TCP peers against the real client"""
+    rng = random.Random(case['seed'])
+    loop = asyncio.new_event_loop()
+    asyncio.set_event_loop(loop)
+    sdir, cdir = tempfile.mkdtemp(prefix='c10t'), tempfile.mkdtemp(prefix='c10u')
+    bad = None
+    blobs = [make_blob(rng, k, s) for k, s in zip(case['kinds'], case['sizes'])]
+
+    async def go():
+        conf = Config(data_dir=sdir, wallet_dir=sdir, download_dir=sdir, config=os.path.join(sdir, 'settings.yml'))
+        bm = BlobManager(loop, sdir, StubStorage(), conf)
+        for b in blobs:
+            blob = bm.get_blob(sha(b), len(b))
+            blob.get_blob_writer().write(b)
+            await asyncio.wait_for(blob.verified.wait(), 10)
+        server = BlobServer(loop, bm, ADDRESS, idle_timeout=3.0, transfer_timeout=5.0)
+        port = free_port()
+        server.start_server(port, '127.0.0.1')
+        await asyncio.wait_for(server.started_listening.wait(), 5)
+        proxy = None
+        cport = port
+        if case['proxy']:
+            proxy, cport = await _tcp_proxy(loop, port, rng, case['proxy'])
+        try:
+            proto = None
+            for i, b in enumerate(blobs):
+                if case.get('liar') is not None and i == case['liar_pos']:
+                    # a lying peer in between: must not poison, must end within the timeouts; then go on with the server
+                    other = rng.randbytes(len(b))
+                    h = sha(b)
+                    scripts = {
+                        'wrong_hash': [honest_header(sha(other), len(other)), other],
+                        'corrupt': [honest_header(h, len(b)), other],
+                        'short': [honest_header(h, len(b)), b[:len(b) // 2]],
+                        'short_close': [honest_header(h, len(b)), b[:len(b) // 2], 'close'],
+                        'excess': [honest_header(h, len(b) + 1), b + b'x' * 50],
+                        'bad_json': [honest_header(h, len(b))[:-1] + b']', b],
+                        'oversized': [b'{"lbrycrd_address": "' + b'a' * 200000],
+                        'silence': [],
+                    }[case['liar']]
+                    box = []
+                    liar = await _tcp_liar(scripts, box)
+                    d = os.path.join(cdir, 'liar%d' % i)
+                    os.mkdir(d)
+                    lb = BlobFile(loop, h, None, None, d)
+                    t0 = loop.time()
+                    try:
+                        res = await asyncio.wait_for(request_blob(loop, lb, '127.0.0.1', box[0], 2, 1.0), 6)
+                    except asyncio.TimeoutError:
+                        return 'client did not give up on a lying peer (%s) within its timeouts' % case['liar']
+                    except asyncio.CancelledError:
+                        res = (0, None)
+                    await asyncio.sleep(0.05)
+                    if lb.get_is_verified() or os.path.isfile(os.path.join(d, h)):
+                        return 'lying TCP peer (%s) left a blob verified / on disk' % case['liar']
+                    if res[1] is not None and res[1].transport and not res[1].transport.is_closing():
+                        return 'connection to a lying TCP peer (%s) kept' % case['liar']
+                    if loop.time() - t0 > 4:
+                        return 'client took %.1fs to drop a lying peer with 1 s timeouts' % (loop.time() - t0)
+                    lb.close()
+                    liar.close()
+                d = os.path.join(cdir, 'r%d' % i)
+                os.mkdir(d)
+                cb = BlobFile(loop, sha(b), rng.choice([None, len(b)]), None, d)
+                n, proto = await asyncio.wait_for(
+                    request_blob(loop, cb, '127.0.0.1', cport, 2, 5, connected_protocol=proto), 30)
+                if proto is None or n != len(b):
+                    return 'honest TCP transfer %d failed: %r' % (i, (n, proto is not None))
+                await asyncio.wait_for(cb.verified.wait(), 5)
+                if open(os.path.join(d, sha(b)), 'rb').read() != b:
+                    return 'honest TCP transfer %d stored different bytes' % i
+                cb.close()
+            if case.get('hostile_client'):
+                r, w = await asyncio.open_connection('127.0.0.1', port)
+                w.write({'oversized': b'a' * 1300, 'bad_json': b'{]}', 'illtyped': b'{"requested_blobs": 5}'}[case['hostile_client']])
+                await w.drain()
+                data = await asyncio.wait_for(r.read(100), 3)
+                if data != b'':
+                    return 'server answered a hostile request instead of closing'
+                w.close()
+                # still serving
+                d = os.path.join(cdir, 'after')
+                os.mkdir(d)
+                cb = BlobFile(loop, sha(blobs[0]), None, None, d)
+                n, p2 = await asyncio.wait_for(request_blob(loop, cb, '127.0.0.1', port, 2, 5), 30)
+                if p2 is None or n != len(blobs[0]):
+                    return 'server stopped serving after a hostile client'
+                p2.close()
+                cb.close()
+            if proto:
+                proto.close()
+            return None
+        finally:
+            if proxy:
+                proxy.close()
+            server.stop_server()
+            bm.stop()
+            await asyncio.sleep(0.01)
+    try:
+        bad = loop.run_until_complete(asyncio.wait_for(go(), 120))
+    except Exception as e:  # noqa
+        bad = 'tcp case crashed: %r' % (e,)
+    finally:
+        try:
+            for t in asyncio.all_tasks(loop):
+                t.cancel()
+            loop.run_until_complete(asyncio.sleep(0.01))
+            loop.run_until_complete(loop.shutdown_default_executor())
+        except Exception:
+            pass
+        loop.close()
+        asyncio.set_event_loop(None)
+        shutil.rmtree(sdir, ignore_errors=True)
+        shutil.rmtree(cdir, ignore_errors=True)
+    run.case(case, nontrivial=True, validated=False)
+    run.count('tcp:' + str(case.get('liar') or case.get('hostile_client') or 'honest'))
+    if bad:
+        run.violation(case, bad, signature={'kind': 'tcp', 'seed': case['seed'], 'sizes': case['sizes'],
+                                            'liar': case.get('liar'), 'proxy': case.get('proxy')})
+
+
+def gen_tcp_case(rng, i):
+    n = rng.choice([1, 2, 3])
+    sizes = [rng.choice([1, 100, 4096, 70000, MAX_BLOB - 1, MAX_BLOB]) if j == 0 else rng.choice([1, 4096, 300000]) for j in range(n)]
+    liars = [None, 'wrong_hash', 'corrupt', 'short', 'short_close', 'excess', 'bad_json', 'oversized', 'silence']
+    liar_pos = rng.randrange(n)
+    if liars[i % len(liars)]:
+        sizes[liar_pos] = min(sizes[liar_pos], 70000)   # the '}'-rescan cost on big lying streams is reported by flood_case
+    return {'kind': 'tcp', 'seed': rng.randrange(1 << 30), 'sizes': sizes, 'kinds': [rng.choice(BLOB_KINDS) for _ in range(n)],
+            'proxy': rng.choice([None, ['all', 'bytes'], ['bytes', 'small'], ['small', 'rand'], ['rand', 'all']]),
+            'liar': liars[i % len(liars)], 'liar_pos': liar_pos,
+            'hostile_client': rng.choice([None, 'oversized', 'bad_json', 'illtyped'])}
+
+
+# ================================================================================ work counter (bytes the client feeds to json.loads)
+
+import lbry.blob_exchange.serialization as _ser  # noqa: E402
+
+
+class _JsonCounter:
+    def __init__(self, real):
+        self.real, self.calls, self.bytes = real, 0, 0
+
+    def loads(self, s, *a, **k):
+        self.calls += 1
+        self.bytes += len(s)
+        return self.real.loads(s, *a, **k)
+
+    def __getattr__(self, n):
+        return getattr(self.real, n)
+
+
+JSON_WORK = _JsonCounter(json)
+_ser.json = JSON_WORK
+
+
+# ================================================================================ main
+
+def dispatch(run, model, case):
+    k = case.get('kind')
+    if k == 'client':
+        run_client_case(run, model, case)
+    elif k == 'server':
+        run_server_case(run, model, case)
+    elif k == 'e2e':
+        run_e2e_case(run, model, case)
+    elif k == 'parse':
+        run_parse_case(run, model, case)
+    elif k == 'tcp':
+        run_tcp_case(run, case)
+    else:
+        raise ValueError('unknown case kind %r' % (k,))
+
+
+def f7_case():
+    """the defect repaired by `fix: blob client treats bytes after a delivered response as blob data`"""
+    blob = b'{"lbrycrd_address": "x"}' + b'a' * 100
+    h = sha(blob)
+    return {'kind': 'client', 'T': 3, 'requests': [{
+        'hash': h, 'known': None, 'truth': blob.hex(), 'honest': True, 'tag': 'honest', 'frag': 'split', 'size': len(blob),
+        'events': [['data', honest_header(h, len(blob)).hex()], ['drain'], ['data', blob.hex()], ['drain']]}], 'modelled': True}
+
+
+def single_cut_cases(rng, kind, size, pairs=False):
+    blob = make_blob(rng, kind, size)
+    h = sha(blob)
+    hdr = honest_header(h, len(blob))
+    stream = hdr + blob
+    cutsets = [[c] for c in range(1, len(stream))]
+    if pairs:
+        near = [c for c in range(len(hdr) - 6, len(hdr) + 7) if 0 < c < len(stream)]
+        cutsets += [[a, b] for a in near for b in near if a < b]
+    for cs in cutsets:
+        parts, prev = [], 0
+        for c in cs + [len(stream)]:
+            parts.append(stream[prev:c])
+            prev = c
+        yield {'kind': 'client', 'T': 3, 'requests': [{
+            'hash': h, 'known': rng.choice([None, len(blob)]), 'truth': blob.hex(), 'honest': True, 'tag': 'honest',
+            'frag': 'cut%r' % (cs,), 'size': len(blob), 'events': to_events(rng, parts, rng.choice([1.0, 0.0]))}], 'modelled': True}
+
+
+def flood_case(n=40000):
+    blob = b'x'
+    return {'kind': 'client', 'T': 3, 'modelled': False, 'requests': [{
+        'hash': sha(blob), 'known': None, 'truth': blob.hex(), 'honest': False, 'tag': 'brace_flood_big', 'frag': 'one', 'size': 1,
+        'events': [['data', (b'}' * n).hex()], ['drain'], ['adv', 7]]}]}
+
+
+def main(run):
+    model = vlib.Model('C10', oracles=ORACLES)
+    rng = run.rng
+    thorough = run.tier == 'thorough'
+    mult = 15 if thorough else 1
+    run.rule = (
+        'client sessions: 1-3 requests on one reused connection against a scripted peer; blobs of 8 kinds (random, '
+        'response-shaped prefix = the F7 witness, all "}", header copy, ...) of 1..4096 bytes; the peer stream '
+        '(honest header || body, or one of %d catalogued misbehaviours at request position 0/1/2) cut by 10 fragmentation '
+        'classes (one, 1-byte, header|body, header+partial body, header cut, after every "}", +-1 around the header end, '
+        'random) with drains between or not, virtual-clock advances and connection loss; plus EVERY single cut position of '
+        'header||body. server: %d request classes (honest, several per connection, unknown/invalid/ill-typed, malformed, '
+        'non-UTF8, 1199/1200/1201-byte cap boundary, floods, stall) x the same fragmentation classes, each followed by '
+        'an honest second connection and the idle/transfer timeout. e2e: real server <-> real client through a re-chunking '
+        'pipe in both directions (8 modes each), blobs to 4096 bytes against the model and 2 MiB by the monitor only. '
+        'parse: _parse_blob_response on mutated headers. thorough adds loopback TCP with the real BlobServer. '
+        'distinct = distinct canonical case; non-trivial = every case.' % (len(MISBEHAVIOURS), len(SERVER_TAGS)))
+    corpus_dir = os.path.join(vlib.VERIF, 'harness', 'corpus', 'C10')
+    if os.path.isdir(corpus_dir):
+        for nm in sorted(os.listdir(corpus_dir)):
+            if nm.endswith('.json'):
+                dispatch(run, model, json.load(open(os.path.join(corpus_dir, nm)))['case'])
+                run.count('corpus')
+    dispatch(run, model, f7_case())
+    # --- client: every misbehaviour at every request position
+    for rep in range(mult):
+        for mis in MISBEHAVIOURS:
+            for pos in range(3):
+                dispatch(run, model, gen_client_case(rng, mis=mis, pos=pos, nreq=3 if rep % 2 == 0 else pos + 1))
+    # --- client: honest, every fragmentation class x blob kind
+    for rep in range(mult):
+        for frag in FRAG_MODES:
+            for kind in sorted(set(BLOB_KINDS)):
+                dispatch(run, model, gen_client_case(rng, mis=None, nreq=rng.choice([1, 2]), frag=frag, blob_kind=kind,
+                                                     size=rng.choice([1, 24, 25, 300, 1000]) if frag == 'bytes' else None))
+    for _ in range(60 * mult):
+        dispatch(run, model, gen_client_case(rng, mis=rng.choice([None] + MISBEHAVIOURS)))
+    # --- client: exhaustive single cuts (thorough: every blob kind, and all cut pairs around the header end)
+    kinds = sorted(set(BLOB_KINDS)) if thorough else ['f7']
+    for kind in kinds:
+        for case in single_cut_cases(rng, kind, 30, pairs=thorough):
+            dispatch(run, model, case)
+            run.count('exhaustive-cut')
+    # --- server
+    for rep in range(3 * mult):
+        for tag in sorted(set(SERVER_TAGS)):
+            dispatch(run, model, gen_server_case(rng, tag=tag))
+    for frag in FRAG_MODES:
+        for tag in ('honest', 'honest_multi', 'cap_1199', 'cap_1200'):
+            dispatch(run, model, gen_server_case(rng, tag=tag, frag=frag))
+    # --- end to end
+    for i in range(60 * mult):
+        dispatch(run, model, gen_e2e_case(rng))
+    for i in range(2 * mult):
+        dispatch(run, model, gen_e2e_case(rng, big=True))
+    # --- parser
+    for _ in range(600 * mult):
+        dispatch(run, model, gen_parse_case(rng))
+    # --- loopback TCP
+    if thorough:
+        for i in range(27):
+            dispatch(run, None, gen_tcp_case(rng, i))
+    # --- oversized-JSON work bound (the defect repaired by `fix: blob client bounds the bytes it scans ...`)
+    dispatch(run, model, flood_case())
+    dispatch(run, model, flood_case(400000 if thorough else 160000))
+    run.exhaustive = False
+    run.partial = ['C10_honest_transfer_completes_partial']
+    run.supporting = {'oracle_calls': model.oracle_calls, 'model_calls': model.calls}
+    run.extra_assumptions = [
+        'Section hypotheses of C10_fragmentation_irrelevant about an honest header (ends in "}", parses as a response at '
+        'its end, no proper "}"-terminated prefix is JSON) - checked with python json on every header the real server wrote',
+        'fake transports reproduce asyncio transport rules (no delivery after close, force-close on escaping exception, '
+        'paused reading queues input); kernel TCP segmentation only in the thorough loopback tier (monitor only)']
+    model.close()
+
+
+def replay(run, case):
+    model = vlib.Model('C10', oracles=ORACLES)
+    dispatch(run, model, case)
+    model.close()
